@@ -339,6 +339,10 @@ func Reverse(seq Sequence) Sequence {
 // amount. Features which surpass the representational edges of the sequences
 // are shifted and split as necessary.
 func Rotate(seq Sequence, n int) Sequence {
+	if Len(seq) == 0 {
+		return seq
+	}
+
 	for Len(seq) > 0 && n < 0 {
 		n += Len(seq)
 	}
